@@ -638,7 +638,61 @@ def run(ctx):
     ]
     if not total['fixpoint']:
         ctx.cap('no fixpoint within budget')
+    if not ctx.violations:
+        fault_part(ctx)
+
+
+FAULT_ENTRIES = ('restart on a fully synchronised database',
+                 'restart on a partially synchronised database',
+                 'restart on a never synchronised database', 'POST resource class',
+                 'PUT resource class (1.7)', 'PUT resource class rename (1.6)',
+                 'DELETE resource class', 'PUT trait', 'DELETE trait')
+
+
+def fault_part(ctx):
+    """E-fault on the operations that touch the two tables: every single database fault at every
+    statement of the three start-up synchronisations and of the class / trait writes. After a
+    failed synchronisation the next one -- in the same process and in a new one -- must restore
+    every standard name with its fixed id; a failed write leaves no row behind."""
+    from vp import faults
+    from vp.boot import make_base_image
+    from vp.workers import Pool
+    corpus = [e for e in faults.corpus() if e['name'] in FAULT_ENTRIES]
+    base = make_base_image()
+    pool = Pool(ctx.workers, 'vp.faults', 'make_worker', (base,))
+    runs = fired = 0
+    outcomes = {}
+    try:
+        bl = list(pool.map([('baseline', e) for e in corpus]))
+        tasks = [('fault', e, [(k, kind)]) for e, b in zip(corpus, bl)
+                 for k in range(b['nstmts']) for kind in faults.FAULT_KINDS]
+        for t, res in zip(tasks, pool.map(tasks, chunksize=8)):
+            if res['outcome'] == 'not-applicable':
+                continue
+            runs += 1
+            fired += bool(res['fired'])
+            outcomes[res['outcome']] = outcomes.get(res['outcome'], 0) + 1
+            for sig, msg in res['viol']:
+                ctx.violation('c19-fault:' + sig, msg,
+                              {'engine': 'fault', 'entry': t[1], 'faults': t[2]})
+    finally:
+        pool.close()
+    ctx.coverage['fault_part'] = {
+        'entries': [e['name'] for e in corpus], 'fault_kinds': list(faults.FAULT_KINDS),
+        'fault_runs': runs, 'runs_where_the_fault_fired': fired, 'outcomes': outcomes,
+        'rule': 'every statement index x every fault kind, one fault per run; after a failed '
+                'start-up synchronisation the synchronisation is run again in the same process '
+                'and then in a new one'}
 
 
 def replay(ctx, data):
+    if data.get('engine') == 'fault':
+        from vp import faults
+        from vp.boot import make_base_image
+        w = faults.FaultWorker(make_base_image())
+        res = faults.judge_fault(w, data['entry'], [tuple(f) for f in data['faults']])
+        for sig, msg in res['viol']:
+            if 'c19-fault:' + sig == data['signature']:
+                return False, 'reproduced: %s' % msg
+        return True, 'outcome %s; signatures %s' % (res['outcome'], [v[0] for v in res['viol']])
     return explore_seq.replay(ctx, data)
